@@ -178,6 +178,11 @@ func (w *world) main() {
 			case 0:
 				closeSignal.Recv()
 				simrt.Probe("consumer_absent_until_close")
+				// every write has returned (ordered by the signal): the total
+				// can be read from here, while Close() waits for a receiver
+				if sz := pw.Size(); sz != fl.total {
+					w.violate("size-mismatch", fmt.Sprintf("Size()=%d read by a consumer after the last write, wrapped writer reported %d", sz, fl.total))
+				}
 			case 3:
 				simrt.Sleep(time.Duration(1+ch("late.ms", 5)) * time.Millisecond)
 				simrt.Probe("consumer_late")
